@@ -36,13 +36,17 @@ def gen_scenario(r, keys):
             ops = r.choice([["All"], ["Access account"], ["~Access account", "All"], ["None"], ["Sign", "Access account"], ["~Sign", "All"],
                             ["Create account", "Access account"], ["Sign"]])
             pl.append((c, w + ("/" + a if a else ""), ops))
+        # often a broad last entry, so that many listings are non-empty and creations are permitted (earlier entries
+        # still decide first)
+        if r.chance(0.6 if c == "client1" else 0.3):
+            pl.append((c, r.choice([".*", r.choice(wallets), "Wallet.*|Vault"]), r.choice([["All"], ["Access account", "Create account"], ["~Sign", "All"]])))
     cfg = lines + [l for l in hist.config_lines(accts, pl, [])]
     ops = []
 
     def paths():
         out = []
         for _ in range(r.weighted([(0, 1), (1, 5), (2, 4), (3, 2)])):
-            w = r.choice(wallets + ["Nope", "wallet 1", ""])
+            w = r.choice(wallets * 3 + ["Nope", "wallet 1", ""])
             k = r.weighted([("wallet", 4), ("regex", 6), ("trailing", 1), ("bad", 1), ("dup", 1)])
             if k == "wallet":
                 out.append(w)
